@@ -9,7 +9,7 @@ CONSTANTS Pool,          \* set of items: regions and unsupported things
           MaxLen,
           Deviations
 
-Supported == {"point", "circle", "ellipse", "cannulus", "eannulus", "rectangle", "polygon"}
+Supported == {"point", "circle", "ellipse", "cannulus", "eannulus", "rectangle", "polygon", "regpoly4"}
 IsRegion(it) == it.cls \in Supported
 Excluded(inc) == inc \in {"F", "0"}
 NoComp == -1
@@ -23,7 +23,14 @@ Halve(r) == [i \in 1..Len(r) |-> r[i] \div 2]
 Double(r) == [i \in 1..Len(r) |-> r[i] * 2]
 
 (* ---- writer ---- *)
-EncodeRow(g) ==
+(* a regular polygon is written as the polygon of its vertices, with its own meta (exclude flag, component):     *)
+(* regpoly4 = 4 vertices, radius r[1], angle 0: top, left, bottom, right                                          *)
+AsPolygon(g) == IF g.cls = "regpoly4"
+                  THEN [g EXCEPT !.cls = "polygon", !.x = <<g.x[1], g.x[1] - g.r[1], g.x[1], g.x[1] + g.r[1]>>,
+                                 !.y = <<g.y[1] + g.r[1], g.y[1], g.y[1] - g.r[1], g.y[1]>>, !.r = <<>>]
+                  ELSE g
+EncodeRow(g0) ==
+  LET g == AsPolygon(g0) IN
   IF "BangBeforeMap" \in Deviations /\ Excluded(g.inc)
     THEN [shape |-> [excl |-> TRUE, name |-> ClassName(g.cls)], x |-> g.x, y |-> g.y, r |-> IF g.r = <<>> THEN <<0>> ELSE g.r, rotang |-> g.ang, comp |-> g.comp]
   ELSE [shape |-> [excl |-> Excluded(g.inc), name |-> BaseName(g.cls)], x |-> g.x, y |-> g.y,
@@ -73,7 +80,8 @@ DecodeRow(row) ==
            inc |-> IF excl THEN "0" ELSE "absent",
            comp |-> IF "ComponentOverwritesInclude" \in Deviations /\ row.comp # NoComp /\ excl THEN row.comp ELSE row.comp]
 (* what a representable region comes back as *)
-Representable(g) == [cls |-> g.cls, x |-> g.x, y |-> g.y, r |-> g.r,
+Representable(g0) == LET g == AsPolygon(g0) IN
+                    [cls |-> g.cls, x |-> g.x, y |-> g.y, r |-> g.r,
                      ang |-> IF g.cls \in {"ellipse", "eannulus", "rectangle"} THEN g.ang ELSE 0,
                      inc |-> IF Excluded(g.inc) THEN "0" ELSE "absent", comp |-> g.comp]
 
